@@ -28,19 +28,19 @@ PROPS = {
     ),
     "C03": dict(
         title="Offset, DST flag and abbreviation for an instant match the TZ data",
-        verus=["tzif", "itime"],
+        verus=["tzif", "posix", ("posix", "_static", STATIC)],
         kani_quick=[], kani_thorough=[],
         design_ref="DESIGN.md section 4, C03",
     ),
     "C04": dict(
         title="Civil-to-instant resolution finds gaps/folds exactly; strategies as documented",
-        verus=["tzif", "itime"],
+        verus=["tzif", "posix"],
         kani_quick=[], kani_thorough=[],
         design_ref="DESIGN.md section 4, C04",
     ),
     "C14": dict(
         title="Transition iterators yield exactly the instants where zone offset info changes",
-        verus=["tzif", "itime"],
+        verus=["tzif", "posix", ("posix", "_static", STATIC)],
         kani_quick=[], kani_thorough=[],
         design_ref="DESIGN.md section 4, C14",
     ),
@@ -68,6 +68,14 @@ PROPS = {
         kani_quick=[], kani_thorough=[],
         design_ref="DESIGN.md section 4, C13",
     ),
+    "C18": dict(
+        title="All ways of loading a time zone give the same zone",
+        verus=["posix", ("posix", "_static", STATIC)],
+        all_fns=True,
+        kani_quick=[], kani_thorough=[],
+        design_ref="DESIGN.md section 4, C18",
+        level_text="Narrow claim: the two copies of the shared time-zone core (src/shared/** used by jiff and the generated crates/jiff-static/src/shared/** used by the static-zone macros) each satisfy the SAME functional contracts (result == spec(args)) for the calendar core and the POSIX rule evaluation, hence agree with each other on every input; a drift in either copy fails a named obligation. Database back-ends, proc-macro expansion and slim/fat zic output are not covered (DESIGN.md section 4, C18).",
+    ),
 }
 
 NOT_APPLICABLE = {
@@ -77,4 +85,4 @@ NOT_APPLICABLE = {
 
 # properties with a design but no committed check yet (kept current as the build proceeds)
 NOT_YET = {p: "check not built yet in this session (design in DESIGN.md section 4); not claimed" for p in
-           ["C05", "C07", "C08", "C09", "C11", "C16", "C17", "C18", "C20"]}
+           ["C05", "C07", "C08", "C09", "C11", "C16", "C17", "C20"]}
